@@ -12,7 +12,12 @@ from lib import xref
 SMALL = [0, 1, 2, 3, 5, 7, 9, 10, 15, 16, 17, 31, 100, 127, 128, 200, 255]
 MEDIUM = [256, 257, 1000, 4095, 4096, 4097, 40000, 65534, 65535]
 POOL = [65536, 65537, 70000, 100000, 1 << 20, 1 << 24, (1 << 30) - 1, 1 << 30, 1234567, 0x7FFF0000 >> 4]
+LONGNAMES = ["accumulatetotal", "doublethevalue", "emitdigit_now", "a_rather_long_procedure_name", "x234567890123", "twelve_chars",
+             "eleven_char", "ten_chars_", "nine_char", "thirteen_chars", "yet_another_identifier_that_is_long", "q_______________q",
+             "ProcedureWithCapitals", "f1234567890", "g12345678901", "h123456789012", "i1234567890123", "k", "m0", "n_1", "p__2", "r___3",
+             "s____4", "t_____5"]
 NAMESETS = [
+    LONGNAMES,
     ["a", "b", "c", "d", "e", "f", "g", "h", "i", "j", "k", "m", "n", "p", "q", "r", "s", "t", "u", "v", "w", "x", "y", "z"],
     ["lab0", "lab1", "lab2", "lab3", "lab4", "lab5", "lab6", "lab7", "lab8", "lab9", "lab10", "lab11", "lab12", "lab13",
      "lab14", "lab15", "lab16", "lab17", "lab18", "lab19", "lab20", "lab21", "lab22", "lab23"],
